@@ -154,5 +154,14 @@ def run(ctx):
                                        for b in ("object", "numpy", "awkward", "sympy", "obj", "array", "zip", "Array")}
 
 
+_run_without_compiled = run
+
+
+def run(ctx):
+    _run_without_compiled(ctx)
+    from tools import nbrows
+    nbrows.check(ctx, ['px', 'py', 'pt', 'pt2', 'pz', 'pseudorapidity', 'p', 'p2', 'E', 'energy', 'E2', 'energy2', 'M', 'mass', 'M2', 'mass2', 'Et', 'transverse_energy', 'Et2', 'transverse_energy2', 'Mt', 'transverse_mass', 'Mt2', 'transverse_mass2'], 'the momentum synonyms')
+
+
 def replay(rec):
     return {"site": (rec.get("failure") or {}).get("site"), "what": (rec.get("failure") or {}).get("what"), "still_fails": None}
